@@ -473,6 +473,12 @@ func RunE2EOn(env Env, p E2E, start func(cfg rig.Config, seed int64) (*rig.Rig, 
 	out := &Outcome{Stats: map[string]int64{}}
 	rng := rand.New(rand.NewSource(p.Seed))
 	p.virtual = env.Virtual()
+	var tdGate chan struct{}
+	defer func() {
+		if tdGate != nil {
+			close(tdGate)
+		}
+	}()
 	cfg := p.Cfg
 	cfg.Tap = true
 	cfg.Retain = p.Profile == "retain" && !cfg.SrvNoCopy
@@ -585,6 +591,27 @@ func RunE2EOn(env Env, p E2E, start func(cfg rig.Config, seed int64) (*rig.Rig, 
 			allStreams = append(allStreams, sp)
 		}
 	}
+	if p.Teardown && len(conns) > 0 && len(conns[0].ops) > 0 && len(conns[0].ops[0]) > 0 {
+		// the first request of the first connection runs for 300 ms: it is
+		// still executing, with the rest queued behind it, long after its
+		// connection has gone
+		o := conns[0].ops[0][0]
+		o.Kind = KCall
+		o.Spec.DelayUs = 300000
+		if !env.Virtual() {
+			// in real time that handler waits for the scenario's gate instead
+			// (decisions below are causal, not timed)
+			tdGate = make(chan struct{})
+			g := tdGate
+			r.Ledger.Sleep = func(d time.Duration) {
+				if d == 300*time.Millisecond {
+					<-g
+					return
+				}
+				time.Sleep(d)
+			}
+		}
+	}
 	// run it
 	var wg sync.WaitGroup
 	var gcStop int32
@@ -647,6 +674,58 @@ func RunE2EOn(env Env, p E2E, start func(cfg rig.Config, seed int64) (*rig.Rig, 
 	}
 	finished := env.Settle(allDone, 30*time.Minute)
 	atomic.StoreInt32(&gcStop, 1)
+	if finished && p.Teardown && tdGate != nil {
+		// Real time: the long handler is held by the gate. A call on a new
+		// connection must complete while the gate is shut. If it has not after
+		// five seconds, the gate is opened: completing only then shows that it
+		// was waiting for the other connection's handler.
+		resc := make(chan error, 1)
+		go func() {
+			nc, err := r.DialOnce()
+			if err != nil {
+				resc <- err
+				return
+			}
+			rec := rig.Do(nc, rig.FormCall, p.Cfg.Codec, rig.Method(p.Cfg.Codec, 0), svc.Spec{Run: p.Run, Conn: 900, Caller: 99, Counter: 2, ReplyLen: 10}, 0, nil)
+			nc.Close()
+			resc <- rec.Err
+		}()
+		select {
+		case err := <-resc:
+			if err != nil {
+				out.stat("teardown_new_connection_errors", 1)
+			}
+			out.stat("teardown_new_connection_calls", 1)
+			close(tdGate)
+		case <-time.After(5 * time.Second):
+			close(tdGate)
+			select {
+			case err := <-resc:
+				out.add("C05", "C05/e2e/teardown-new-connection", fmt.Sprintf("a call on a connection opened while a request of an already closed connection was still executing did not complete for 5 s, and completed (err %v) as soon as that request's handler was released: connections are not independent (%s)", err, p.Cfg), nil)
+			case <-time.After(10 * time.Second):
+				out.Inconclusive = "a call on a fresh connection did not complete within 15 s (" + p.Cfg.String() + " teardown)"
+			}
+		}
+		tdGate = nil
+	}
+	if finished && p.Teardown && env.Virtual() {
+		// "different connections stay independent": a connection opened now,
+		// while requests of the closed connections are still executing, is
+		// served at once (virtual time: the 300 ms handler is the only thing
+		// that takes time)
+		t0 := time.Now()
+		if nc, err := r.Dial(); err != nil {
+			out.add("C05", "C05/e2e/teardown-new-connection", fmt.Sprintf("dialing a new connection while requests of closed connections were still executing failed: %v (%s)", err, p.Cfg), nil)
+		} else {
+			rec := rig.Do(nc, rig.FormCall, p.Cfg.Codec, rig.Method(p.Cfg.Codec, 0), svc.Spec{Run: p.Run, Conn: 900, Caller: 99, Counter: 1, ReplyLen: 10}, 0, nil)
+			d := time.Since(t0)
+			if rec.Err != nil || d > 100*time.Millisecond {
+				out.add("C05", "C05/e2e/teardown-new-connection", fmt.Sprintf("a connection opened while requests of an already closed connection were still executing was served only after %v of virtual time (err %v): it waited for the other connection's handlers (%s)", d, rec.Err, p.Cfg), nil)
+			}
+			out.stat("teardown_new_connection_calls", 1)
+			nc.Close()
+		}
+	}
 	if !finished {
 		if !env.Virtual() {
 			out.Inconclusive = "workload did not finish within the real-time budget (" + p.String() + ")"
@@ -766,6 +845,22 @@ func RunE2EOn(env Env, p E2E, start func(cfg rig.Config, seed int64) (*rig.Rig, 
 	}
 	r.Server.Close()
 	env.Settle(func() bool { ret, _ := r.ListenReturned(); u, s := r.Ledger.Running(); return ret && u == 0 && s == 0 }, 5*time.Second)
+	if p.Teardown && !env.Virtual() {
+		// in real time "no handler running" also holds for an instant between
+		// two queued requests: wait until nothing has run for a while
+		stable, lastN := 0, -1
+		env.Settle(func() bool {
+			u, s := r.Ledger.Running()
+			n := r.Ledger.NumExecs()
+			if u == 0 && s == 0 && n == lastN {
+				stable++
+			} else {
+				stable = 0
+			}
+			lastN = n
+			return stable >= 150
+		}, 10*time.Second)
+	}
 	if !finished {
 		out.Sig = "unfinished"
 		return out
@@ -786,6 +881,12 @@ func judgeTeardown(out *Outcome, p E2E, r *rig.Rig, env Env) {
 	cfgs := p.Cfg.String() + " teardown"
 	if u, s := r.Ledger.Running(); u > 0 || s > 0 {
 		out.Inconclusive = fmt.Sprintf("%d handlers still running after the connections and the server were closed (%s)", u+s, cfgs)
+		if dir := os.Getenv("VT_WORK"); dir != "" {
+			buf := make([]byte, 1<<22)
+			buf = buf[:runtime.Stack(buf, true)]
+			os.MkdirAll(dir, 0o755)
+			os.WriteFile(fmt.Sprintf("%s/teardown-%d.stacks", dir, p.Run), buf, 0o644)
+		}
 		return
 	}
 	execs, _, overlaps := r.Ledger.Snapshot()
